@@ -2,7 +2,8 @@
    logic: every failing path after launch kills the runner; the OS-level termination and the
    later Kill are observed by the correspondence harness). Statements only. *)
 From Coq Require Import List NArith ZArith Bool String.
-From GP Require Import Base.Val Base.Bytes Base.GoStrings Model.Negotiate Model.Handshake Model.Params Proofs.HandshakeP.
+From GP Require Import Base.Val Base.Bytes Base.GoStrings Model.Negotiate Model.Handshake Model.Params Model.StartFail Proofs.HandshakeP Proofs.StartFailP.
+From GP Require Import Generated.
 From GP Require Props.C01.
 Import ListNotations.
 
@@ -40,3 +41,32 @@ Proof. vm_compute. reflexivity. Qed.
 Example C05_nonvacuous_exit_before_output :
   map fst (start_after_launch gen_hs_params C01.ex_cfg (C01.ex_orc "tcp" "x" false) [] TEof) = [OErr EUnrecognized; OErr EExited].
 Proof. vm_compute. reflexivity. Qed.
+
+(* ---- the failure in front of the handshake: runner.Start itself reports an error, possibly after a custom runner
+   launched its workload.  The code-shape facts, read from client.go (Start and Kill) on every run: *)
+Lemma facts_runner_recorded_first : StartFailP.shape gen_sf_params.
+Proof. repeat split; reflexivity. Qed.
+
+(* "A later Kill returns promptly and removes the temporary socket directory": after runner.Start failed, for either
+   launch method, whether or not something was launched, and for any number n >= 1 of Kill calls: what was launched is
+   ended, by exactly one runner.Kill, the directory is gone and the client has forgotten the runner *)
+Theorem C05_kill_after_failed_runner_start : forall l launched n, (1 <= n)%nat ->
+  let s := sf_kills gen_sf_params n (failed_runner_start gen_sf_params l launched true) in
+  sc_workload s = false /\ sc_dir s = false /\ sc_kills s = 1%nat /\ sc_runner s = false.
+Proof. intros l launched n. exact (kill_after_failed_runner_start gen_sf_params l launched n facts_runner_recorded_first). Qed.
+Print Assumptions C05_kill_after_failed_runner_start.
+
+(* and the shape matters: a Start that records the runner only once runner.Start succeeded leaves workload and
+   directory behind however often Kill is called; so does, for the directory, a Kill that does not remove it *)
+Theorem C05_refuted_late_record : forall P n, sf_records_first P = false ->
+  let s := sf_kills P n (failed_runner_start P SfRunner true true) in
+  sc_workload s = true /\ sc_dir s = true /\ sc_kills s = 0%nat.
+Proof. exact late_record_leaves_workload. Qed.
+Theorem C05_refuted_no_dir_removal : forall P n, sf_kill_removes_dir P = false ->
+  sc_dir (sf_kills P n (failed_runner_start P SfRunner true true)) = true.
+Proof. exact no_removal_leaves_dir. Qed.
+
+Example C05_nonvacuous_runner_start_failure :
+  sc_workload (failed_runner_start gen_sf_params SfRunner true true) = true /\
+  sc_dir (failed_runner_start gen_sf_params SfRunner true true) = true.
+Proof. split; reflexivity. Qed.
